@@ -44,16 +44,16 @@ class Family:
             n.content.append(self.text(lab + '_t'))
         return n
 
-def family_one_level(f, docs=1, occ=3, slots=2, attrs=1, text=True, noise=False, gslots=0, pool=3, names=None, anames=None, leaf_attrs=0, leaf_form=True, p_form=True, first_present=True, gpool=2):
+def family_one_level(f, docs=1, occ=3, slots=2, attrs=1, text=True, noise=False, gslots=0, pool=3, names=None, anames=None, leaf_attrs=0, leaf_form=True, p_form=True, first_present=True, gpool=2, pname='p', rname='r'):
     """K documents <r> ; each has `occ` occurrence slots of <p> (first present, others symbolic); each <p> has `slots` child slots with names from a pool,
     optional text/CDATA slot, attribute slots; each child may have `gslots` grandchildren"""
     out = []
     for d in range(docs):
-        root = Node('r', label='r%d' % d, empty=False)
+        root = Node(rname, label='r%d' % d, empty=False)
         if noise: root.content.append(f.noise('d%d_n0' % d))
         for o in range(occ):
             lab = 'd%d_p%d' % (d, o)
-            p = Node('p', present=True if (o == 0 and d == 0 and first_present) else f.B(lab + '_p'), empty=f.B(lab + '_e') if p_form else False, attrs=f.attrs(lab, attrs, anames or APOOL), label=lab)
+            p = Node(pname, present=True if (o == 0 and d == 0 and first_present) else f.B(lab + '_p'), empty=f.B(lab + '_e') if p_form else False, attrs=f.attrs(lab, attrs, anames or APOOL), label=lab)
             for s in range(slots):
                 c = f.leaf('%s_c%d' % (lab, s), names or POOL[:pool], attrs=leaf_attrs, text=False, form=leaf_form)
                 if gslots:
@@ -68,12 +68,12 @@ def family_one_level(f, docs=1, occ=3, slots=2, attrs=1, text=True, noise=False,
         out.append(items)
     return out
 
-def family_root_level(f, docs=3, slots=2, attrs=1, text=True, pool=3, leaf_form=True, root_form=True, names=None, anames=None):
+def family_root_level(f, docs=3, slots=2, attrs=1, text=True, pool=3, leaf_form=True, root_form=True, names=None, anames=None, rname='r'):
     """K documents whose root <r> directly carries symbolic children/attributes/text: occurrences of the root across documents (extend_struct)"""
     out = []
     for d in range(docs):
         lab = 'd%d_r' % d
-        root = Node('r', label=lab, empty=f.B(lab + '_e') if root_form else False, attrs=f.attrs(lab, attrs, anames or APOOL))
+        root = Node(rname, label=lab, empty=f.B(lab + '_e') if root_form else False, attrs=f.attrs(lab, attrs, anames or APOOL))
         for s in range(slots):
             root.content.append(f.leaf('%s_c%d' % (lab, s), names or POOL[:pool], form=leaf_form))
             if text and s == 0: root.content.append(f.text(lab + '_t'))
@@ -222,7 +222,7 @@ class ExactInference(ParseHarness):
         return out
     def assertions(self, m, out):
         if out['root'] is None: return [('parse of a well-formed sequence succeeds', False)]
-        conds = [('root name', SEQ(out['root'].f['name'].val, 'r'))]
+        conds = [('root name', SEQ(out['root'].f['name'].val, self.fam_kw.get('rname', 'r')))]
         conds += X.exactness(out['root'], X.Expect(self.roots()))
         if self.render:
             if 'native_outputs' in out:
@@ -466,12 +466,16 @@ class InductiveStep(Harness):
             alts = []
             for i, cn in enumerate(self.cn):
                 occ = nocc(cn)
-                cnt = self.c_count[i] + z3.Sum([z3.If(o, z3.BitVecVal(1, 32), z3.BitVecVal(0, 32)) for o in occ]) if any(o is not False for o in occ) else self.c_count[i]
+                cnt = self.c_count[i]
+                for o in occ:
+                    if o is not False: cnt = cnt + z3.If(o, z3.BitVecVal(1, 32), z3.BitVecVal(0, 32))
                 alts.append(AND(SEQ(nm, cn), IFF(kd.variant == 'Mandatory', AND(self.c_mand[i], OR(*occ))), IFF(f['standalone'], AND(self.c_single[i], NOT(X.count_ge(occ, 2)))),
                                 f['count'] == cnt, f['position'].variant == 'Some' and f['position'].p[0] == i))
             for ni in range(self.new):
                 nn = 'n%d' % ni; occ = nocc(nn)
-                cnt1 = z3.Sum([z3.If(o, z3.BitVecVal(1, 32), z3.BitVecVal(0, 32)) for o in occ])
+                cnt1 = z3.BitVecVal(0, 32)
+                for o in occ:
+                    if o is not False: cnt1 = cnt1 + z3.If(o, z3.BitVecVal(1, 32), z3.BitVecVal(0, 32))
                 alts.append(AND(SEQ(nm, nn), OR(*occ), kd.variant == 'Optional', IFF(f['standalone'], NOT(X.count_ge(occ, 2))),
                                 (f['count'] == cnt1) if not isinstance(f['count'], int) else (z3.BitVecVal(f['count'], 32) == cnt1),
                                 f['position'].variant == 'Some' and isinstance(f['position'].p[0], int) and f['position'].p[0] >= self.k))
